@@ -50,7 +50,7 @@ TECHNIQUE = (
 LEVEL_TEXT = (
     "Exploration: seeded virtual ECUs (p_session 0.3..1, p_service 0.1..0.6, p_identifier 0.05..0.4, with and without "
     "generalReject for handler-less services, with and without silently discarded under-length requests of implemented services) x session lists (range grammar and explicit order, incl. sessions the ECU does not "
-    "have or cannot enter) x skip maps in the two-dimensional range grammar (single-session and multi-session elements, common ids "
+    "have or cannot enter) x skip maps in the two-dimensional range grammar (single-session and multi-session elements, entries that name no ids such as '3:', common ids "
     "written once for several sessions plus per-session additions, in either order) x scan_response_ids x check-session x reset; identifier "
     "scans for services 0x22/0x27/0x2E/0x31 over ranges of 64..1024 identifiers around 0x0000, 0x007F, 0xF186, 0xFFFF with payloads, "
     "check-session intervals, skip maps, skip-not-supported; ECU-side session drop-outs (with check-session) and lost replies "
@@ -140,7 +140,7 @@ def shards(tier: str, seed: int) -> list[dict[str, Any]]:
 def required_reach(tier: str) -> dict[str, int]:
     return {
         "services.scans": 100, "services.windows": 150, "services.non-default-session-scanned": 40, "services.found": 1000,
-        "services.skip-map-used": 20, "services.skip-whole-session": 5, "services.response-ids": 20, "services.check-session": 20,
+        "services.skip-map-used": 20, "services.skip-whole-session": 5, "services.skip-entry-without-ids.session-scanned": 20, "services.response-ids": 20, "services.check-session": 20,
         "services.reset": 10, "services.session-refused": 10, "services.reply.nrc-13": 100, "services.reply.nrc-7f": 100,
         "services.reply.nrc-11": 1000, "services.reply.silence": 20, "services.dropout-recovered": 5, "services.full-run": 10,
         "services.sessions-none": 5, "services.found-at-length>1": 50,
@@ -399,6 +399,21 @@ def transitions_of(srv: Any) -> dict[int, list[int]]:
     return {int(s): sorted(int(x) for x in (d.get(0x10) or [])) for s, d in srv.services.items()}
 
 
+def add_entry_without_ids(skip: dict[int, list[int] | None], sessions: list[int]) -> int | None:
+    """round 8: in about a quarter of the cases one session to be scanned that has no skip entry yet gets an entry that names NO ids
+    ('0x03:' on the command line, {3: []} as a map): nothing is skipped there, all ids of that session are to be probed.  The choice is
+    derived from the case itself, not drawn from the case's random stream, so all other draws stay what they were."""
+    import zlib
+
+    h = zlib.crc32(repr((sorted((k, tuple(v) if v is not None else None) for k, v in skip.items()), list(sessions))).encode())
+    free = [x for x in sessions if x not in skip]
+    if not free or h % 4 != 0:
+        return None
+    s = free[(h >> 8) % len(free)]
+    skip[s] = []
+    return s
+
+
 def render_skip(rng: Any, skip: dict[int, list[int] | None], group: tuple[list[int], list[int]] | None = None) -> list[str]:
     """the skip map in the two-dimensional grammar '<sessions>:<ids>' / '<sessions>' (whole session).
     group = (sessions, ids): ids that all these sessions have in common are written ONCE, as elements whose outer part is a range /
@@ -429,6 +444,8 @@ def render_skip(rng: Any, skip: dict[int, list[int] | None], group: tuple[list[i
         own = [x for x in ids if not (s in members and x in shared and rng.random() < 0.9)]
         for part in em.render_ranges(rng, own) if own else []:
             items.append(f"{f(s)}:{part}")
+        if not ids:
+            items.append(f"{hex(s) if s % 2 else str(s)}:")  # an entry that names no ids
     rng.shuffle(items)
     if head and rng.random() < 0.7:
         items = head + items  # the common part first, the per-session additions after it
@@ -446,6 +463,8 @@ def skip_elements(skip_expr: list[str]) -> list[tuple[list[int], list[int] | Non
     def ids(text: str) -> list[int]:
         out: set[int] = set()
         for piece in text.split(","):
+            if not piece:
+                continue  # '3:' names no ids
             if "-" in piece:
                 a, b = piece.split("-")
                 out.update(range(int(a, 0), int(b, 0) + 1))
@@ -791,6 +810,7 @@ def gen_services_case(rng: Any) -> dict[str, Any]:
                     a = rng.choice([0, 0x10, 0x22, 0x27, 0x3E, 0x7F, 0xBF, 0xFF, rng.randrange(256)])
                     ids.update(range(a, min(256, a + rng.choice([1, 1, 4, 16, 64]))))
                 skip[s] = sorted(ids)
+    add_entry_without_ids(skip, sessions)
     group = None
     if rng.random() < 0.3:
         def some_sids() -> set[int]:
@@ -1231,6 +1251,10 @@ def check_services(ctx: Any, case: dict[str, Any]) -> None:
                     ctx.reach(f"services.session-change-raises.later-session-entered.{cls}")
         if any(s in skip and skip[s] is None for s in sessions):
             ctx.reach("services.skip-whole-session")
+        if any(s in skip and skip[s] == [] for s in sessions):
+            ctx.reach("services.skip-entry-without-ids")
+            if any(skip.get(wd.session) == [] for wd in wins):
+                ctx.reach("services.skip-entry-without-ids.session-scanned")
         entered = [wd.session for wd in wins]
         for s in entered:
             if s not in claimed:
@@ -1454,6 +1478,7 @@ def gen_ident_case(rng: Any) -> dict[str, Any]:
                     a = rng.choice([start, end, max(start, end - 3), (start + end) // 2, 0xF186, rng.randint(start, max(start, end))])
                     ids.update(range(a, min(0x10000, a + rng.choice([1, 1, 2, 8, 40]))))
                 skip[s] = sorted(ids)
+    add_entry_without_ids(skip, sessions)
     group = None
     if rng.random() < 0.3:
         def some_dids() -> set[int]:
